@@ -162,7 +162,7 @@ def move_staticmethod_static_scope(source: str, preserve: Collection[str]) -> st
 
         for node in class_attribute_accesses:
             classdef_aliases = [classdef.name]
-            if classdef.lineno < node.lineno < classdef.end_lineno:
+            if classdef.lineno < node.lineno <= classdef.end_lineno:
                 classdef_aliases.extend(("self", "cls"))
 
             template = ast.Attribute(
